@@ -41,7 +41,8 @@ def main():
         from crosshair.core_and_libs import analyze_function, run_checkables, MessageType
         from crosshair.options import AnalysisKind, AnalysisOptionSet
         import crosshair.statespace as ss
-        from vlib import plugin, xh_state, entry
+        from vlib import plugin, xh_state, entry, xh_patches
+        xh_patches.install()
         from vlib.xh_state import STATE
 
         # Reals stand in for floats (stated assumption of every check that meets a float): CrossHair
